@@ -6,8 +6,33 @@ from ..gen import instances as GI, schemas as GS, walk
 from ..harness import Prop, Result
 
 
+# property names whose json_path / dotted rendering collides with a genuinely nested location
+COLLIDING = [{"a.b": 1, "a": {"b": 2}}, {"a[0]": 1, "a": [2]}, {"a": {"b.c": 1, "b": {"c": 2}}}, {"a": [{"b": 1}], "a[0].b": 2},
+             {"a": {"b": 1}, "a.b": {"c": 1}}, [{"0": 1}, {"[0]": 2}], {"$": 1, "": {"": 2}}, {"a": {"0": 1}, "a.0": 2, "a[0]": 3},
+             {"0": [1], "0[0]": 2}, {"a": [[1]], "a[0]": [2], "a[0][0]": 3}]
+
+
+def everything_fails(depth):
+    """A schema under which every scalar at depth <= `depth` is an error, so errors sit at many sibling paths."""
+    if depth == 0:
+        return {"type": "null", "enum": [None]}
+    sub = everything_fails(depth - 1)
+    return {"type": ["object", "array"], "additionalProperties": sub, "items": sub}
+
+
+@st.composite
+def collision_cases(draw):
+    d = draw(st.sampled_from(impl.DRAFTS))
+    import copy as _c
+    xs = [_c.deepcopy(x) for x in draw(st.lists(st.sampled_from(COLLIDING), min_size=2, max_size=3))]
+    order = draw(st.lists(st.integers(0, 99), min_size=8, max_size=8))
+    return {"draft": d, "schema": everything_fails(3), "instances": xs, "order": order, "probes": 0}
+
+
 @st.composite
 def cases(draw):
+    if draw(st.integers(0, 6)) == 0:
+        return draw(collision_cases())
     d = draw(st.sampled_from(impl.DRAFTS))
     s = draw(GS.root_schemas(d, 8))
     xs = draw(GI.instances_for(s, 3))
@@ -122,7 +147,8 @@ class C17(Prop):
             "distinct paths, or a Draft 3 required error, or a propertyNames error, or two errors with the same path "
             "and keyword.")
     ASSUMPTIONS = ["membership / iteration are checked on a freshly built tree before any clean-element lookup"]
-    GATES = {"multi-path": 300, "d3-required": 20, "propertyNames": 20, "same-path-and-keyword": 30, "index-clean": 500}
+    GATES = {"multi-path": 300, "d3-required": 20, "propertyNames": 20, "same-path-and-keyword": 30, "index-clean": 500,
+             "paths-that-render-alike": 100}
     MIN_NONTRIVIAL = 300
 
     def strategy(self, tier):
@@ -171,6 +197,10 @@ class C17(Prop):
                 nt = True
             if len(set(pk)) < len(pk):
                 res.labels.append("same-path-and-keyword")
+                nt = True
+            rendered = ["/".join(map(str, p)).replace("/", ".") for p in paths]
+            if len(set("".join(c for c in r if c not in ".[]") for r in rendered)) < len(rendered):
+                res.labels.append("paths-that-render-alike")
                 nt = True
             res.nontrivial = res.nontrivial or nt
             for tag, perm in perms.items():
